@@ -7,7 +7,7 @@ from collections import Counter
 from mc import enum_crn as ec
 from mc import ref_linalg as rl
 from mc.core import Fail, Outcome, Sub, run_subs
-from mc.checks.c17 import TEXTBOOK, SCHEMES
+from mc.checks.c17 import TEXTBOOK, SCHEMES, scheme_lists
 
 PROPERTY = "C19"
 ASSUMPTIONS = [
@@ -124,8 +124,8 @@ def oracle(net):
 
 def check(case):
     net = ec.parse_net(case)
-    scheme = SCHEMES[zlib.crc32(case.encode()) % 3]
-    H = ec.build_hypergraph(net, rules=scheme[0][: len(net)] if scheme[0] else None, ids=scheme[1][: len(net)] if scheme[1] else None)
+    rules, ids = scheme_lists(case, len(net))
+    H = ec.build_hypergraph(net, rules=rules, ids=ids)
     return judge(H, net)
 
 
